@@ -573,12 +573,12 @@ def b_collect(tier):
 
 
 def b_expand(tier):
-    from pymbolic.mapper.distributor import distribute
+    from pymbolic.mapper.distributor import DistributeMapper, distribute
     b = BoundedRun("expand", rule="distribute(e) (= pymbolic.expand) on the polynomial and rational pools: same rational function, same exact values, does not raise; for "
                    "polynomial inputs (sums, products, non-negative integer powers of variables and constants): no sum beneath a product or integer power, pairwise distinct "
                    "monomials (=> polynomials equal as functions expand to equal term multisets); also commutative=False", bound="as flatten (polynomial + rational pools)",
                    functions=["DistributeMapper.map_sum/map_product/map_power/map_quotient", "distribute", "TermCollector", "CommutativeConstantFoldingMapper"])
-    for e in poly_pool(tier) + rational_pool(tier) + zero_power_pool(tier):
+    for e in poly_pool(tier) + rational_pool(tier) + zero_power_pool(tier) + generic_pool(tier):
         r = outcome.run(lambda: distribute(e))
         b.case(("expand", repr(e)), sample=dict(expr=repr(e)))
         cause = _expand_cause(e)
@@ -591,6 +591,11 @@ def b_expand(tier):
             if v:
                 b.fail(Failure("expand", f"what=expand-not-normal{cause} expr={e!r}", dict(kind="expand", expr=repr(e)), expected="expanded normal form", actual=v[:200],
                                functions=["DistributeMapper", "TermCollector"]))
+        r3 = outcome.run(lambda: DistributeMapper()(e))       # the mapper constructed directly, with its default collector and folder
+        b.case(("expand-direct", repr(e)))
+        if r3 != r:
+            b.fail(Failure("expand", f"what=expand-direct-mapper-differs{cause} expr={e!r}", dict(kind="expand-direct", expr=repr(e)), expected=outcome.describe(r)[:150], actual=outcome.describe(r3)[:150],
+                           functions=["DistributeMapper.__init__"]))
         r2 = outcome.run(lambda: distribute(e, commutative=False))
         b.case(("expand-nc", repr(e)))
         if r2[0] == "val":
